@@ -8,6 +8,7 @@ from typing import Dict, List, Optional, Tuple
 
 from harness.lib.core import VERIF, Ctx, lean_lock, run_driver, shrink_ops
 from harness.extract import power as x_power
+from harness.extract import power_prog as x_prog
 from harness.extract import request_schema as x_schema   # C05x's extractor, used read-only: the schematic request tree
 from harness.rigs import power as rig
 
@@ -40,18 +41,25 @@ MANIFEST = {
             "function of the sessions and the time alone (modelled; agrees with C16's model; logins refused while not ON); (13) the "
             "composite timing theorem for ALL integer durations (a duration <= 0 skips the transitional state within the request); "
             "(14) a session that survives a power cycle is inert while the node is not ON (every request but startup refused and "
-            "changing nothing, every login refused, every frame stopped at the interface; only the time-out sweep touches it). Tie: Gen/Power.lean (enum, defaults, "
-            "statement shape of the power methods, guarded statement lists of apply_timestep and pre_timestep, interface guards and "
+            "changing nothing, every login refused, every frame stopped at the interface; only the time-out sweep touches it); "
+            "(15) the power methods are tied BY MEANING: the bodies of Node.power_on / power_off / reset / the countdown blocks of "
+            "apply_timestep / _start_up_actions / _shut_down_actions are translated statement by statement (helper methods of Node inlined, "
+            "all()/any() over the interfaces with their short-circuit semantics) and proved, for every node, to compute exactly the model's "
+            "powerOn / powerOff / reset / tickDown∘tickUp / actions (node afterwards incl. every operating_state assignment, and the answer); "
+            "a rewrite that keeps the meaning re-proves, one that does not breaks the theorem and a counter-model search prints a node. "
+            "Tie: Gen/PowerProg.lean (the translated bodies) + Gen/Power.lean (enum, defaults, "
+            "guarded statement lists of apply_timestep and pre_timestep, interface guards and "
             "every enable/disable definition, validators, route tables per class, inventories of every class below Node and "
             "NetworkInterface, the power-relevant statements of constructors/loader/set-up, every power_on/power_off call site, "
             "software guards) + Gen/RequestSchema.lean (C05x's schematic request tree) + differential rig R-node: bounded-exhaustive "
             "and random request/tick/ping sequences on two hosts, on a six-class network, and with a node of EVERY instantiable class "
             "under test between peers; direct API calls, run-time duration changes, negative and huge durations; whole power cycles "
-            "from assorted software states; scenario dictionaries with every declared state through PrimaiteGame.from_config and "
+            "from assorted software states; whole power cycles for EVERY placement of the links on the ports of a switch / router / "
+            "firewall (and plugged / unplugged hosts and wireless routers), also after an interface was disabled by request; scenario dictionaries with every declared state through PrimaiteGame.from_config and "
             "setup_for_episode; user-session time-outs across power changes. Compared after every operation: the response, every "
             "operating_state assignment, the whole modelled state, and per tick which sub-component pre_timestep/apply_timestep calls "
             "the node made; implementation-side oracles for frames passing an interface of a non-ON node, enabled interfaces / "
-            "running software in the wrong state, accepted requests, moved software clocks, pings crossing a non-ON node.",
+            "running software in the wrong state, a plugged-in interface left down by the operation that returned the node to ON, accepted requests, moved software clocks, pings crossing a non-ON node.",
     "note": "C12-specific: the software layer is summarised (service/application state + restart/install countdown, two node-scan "
             "countdowns); what a running service does with a payload is C13, sessions are C16 (here only: their time-out ignores "
             "power). The legal-moves and timing theorems are about requests, as the property's quantifier is: the Python API and "
@@ -62,7 +70,8 @@ MANIFEST = {
                  "power model; model tied by regenerated tables/shapes/inventories and a differential rig",
     "design_ref": "5/C12",
 }
-MODULES = ["PrimaiteModel.Props.C12", "PrimaiteModel.Props.C12Deep", "PrimaiteModel.Props.C12Cycle", "PrimaiteModel.Props.C12Any"]
+MODULES = ["PrimaiteModel.Props.C12", "PrimaiteModel.Props.C12Deep", "PrimaiteModel.Props.C12Cycle", "PrimaiteModel.Props.C12Any",
+           "PrimaiteModel.Props.C12Prog"]
 EXE = "drv_c12"
 TAIL = [{"op": "tick"}, {"op": "ping", "src": 1, "dst": 0}, {"op": "tick"}, {"op": "tick"}, {"op": "tick"}, {"op": "tick"},
         {"op": "ping", "src": 1, "dst": 0}, {"op": "ping", "src": 0, "dst": 1}]
@@ -153,8 +162,31 @@ def run(ctx: Ctx):
     t0 = time.time()
     with lean_lock():
         ctx.extract("Power", x_power.emit)
+        ctx.extract("PowerProg", x_prog.emit)
         ctx.extract("RequestSchema", x_schema.emit)
         ctx.prove(MODULES, exes=[EXE], clean=False, leanchecker=ctx.thorough)
+        # counter-model search for the translated power methods: turns a broken `C12_gen_*_sem` proof into a readable node
+        # (it proves nothing; when the theorems check it must find nothing)
+        try:
+            import subprocess
+            from harness.lib.core import LEAN, lake_build
+            okb, outb = lake_build(["drv_c12prog"])
+            if okb:
+                res = subprocess.run([str(LEAN / ".lake" / "build" / "bin" / "drv_c12prog")], stdout=subprocess.PIPE, text=True, timeout=600)
+                found = [l for l in res.stdout.splitlines() if " counter-model " in l]
+                tried = [l for l in res.stdout.splitlines() if " ok " in l]
+                ctx.oblige("model:translated power methods agree with the model on every small node (counter-model search)",
+                           "correspondence", not found and len(tried) == 6, " || ".join(found)[:3000] or res.stdout[:500])
+                for l in found:
+                    ctx.notes.append("counter-model of a translated power method: " + l[:1200])
+                if tried:
+                    ctx.notes.append("counter-model search: " + "; ".join(tried))
+            else:
+                ctx.oblige("model:translated power methods agree with the model on every small node (counter-model search)",
+                           "correspondence", False, "drv_c12prog does not build: " + outb[-600:])
+        except Exception as e:
+            ctx.oblige("model:translated power methods agree with the model on every small node (counter-model search)",
+                       "correspondence", False, f"{type(e).__name__}: {e}")
     ctx.cov["rule"] = ("case = (node classes, start-up/shut-down durations, op sequence over shutdown/startup/reset requests, ticks, "
                        "pings, other node-level requests, frame injections); every answer, every operating_state assignment and "
                        "the whole modelled state after every op are compared; a case is non-trivial when some node leaves ON or "
@@ -188,7 +220,9 @@ def run(ctx: Ctx):
     rng = ctx.rng.fork("power")
     all_durs = [(u, d) for u in (0, 1, 2, 3) for d in (0, 1, 2, 3)]
     depth_all = ctx.scale(3, 4)
-    for (u, d) in all_durs:
+    # quick (round 7, to pay for the layout family): {0,1,3}²; duration 2 is in the class / layout / random families and in thorough
+    pair_durs = all_durs if ctx.thorough else [(u, d) for (u, d) in all_durs if u != 2 and d != 2]
+    for (u, d) in pair_durs:
         for k, c in enumerate(rig.exhaustive_pair(depth_all, (u, d, 1, 1))):
             c["ops"] += [dict(o) for o in TAIL]
             cases.append((f"exh{depth_all}:{u},{d}:{k}", c))
@@ -212,6 +246,9 @@ def run(ctx: Ctx):
             continue  # quick: the deeper family on one host class besides computer (host-node); all host classes share HostNode's code
         for k, c in enumerate(rig.exhaustive_cls(cls, cls_depth + 1, 0, 0)):
             cases.append((f"clsexh{cls_depth + 1}:{cls}:0,0:{k}", c))
+    # --- round 7: whole power cycles for every placement of the links on the ports of a switch / router / firewall
+    for k, c in enumerate(rig.layout_cycle_cases()):
+        cases.append((f"layout:{c['nodes'][0]['cls']}:{k}", c))
     # --- dynamic cross-check of the (lexical) frame entry-point table: every class, every interface, every power state
     for k, c in enumerate(rig.entry_cases()):
         cases.append((f"entry:{c['nodes'][0]['cls']}:{k}", c))
@@ -232,6 +269,10 @@ def run(ctx: Ctx):
     for k in range(ctx.scale(100, 1000)):
         cases.append((f"sess:{k}", rig.gen_sessions(rng)))
 
+    only = [x for x in os.environ.get("C12_FAMILIES", "").split(",") if x]
+    if only:   # development aid (mutation self-checks): run the named families only; recorded in the evidence
+        cases = [(nm, c) for nm, c in cases if nm.split(":")[0] in only]
+        ctx.notes.append(f"C12_FAMILIES={','.join(only)}: only these case families were run (development setting, not the check as shipped)")
     workers = int(os.environ.get("C12_WORKERS", "0")) or max(1, min(14, (os.cpu_count() or 2) - 2))
     t1 = time.time()
     results = _run_impl_all([c for _, c in cases], workers)
@@ -348,7 +389,7 @@ def run(ctx: Ctx):
     ctx.notes.append("frame entry cross-check (frames handed straight to an interface): " + ", ".join(f"{k}={v}" for k, v in sorted(ent.items())))
     ctx.oblige("rig:R-node agrees on every trace", "correspondence", agree == len(cases),
                f"{len(cases) - agree} of {len(cases)} traces disagree or fail an oracle; not reproduced alone: {json.dumps(unstable)[:1500]}")
-    ctx.notes.append(f"cases={len(cases)} lines={len(lines_all)} workers={workers} exhaustive depth {depth_all} over 16 duration pairs"
+    ctx.notes.append(f"cases={len(cases)} lines={len(lines_all)} workers={workers} exhaustive depth {depth_all} over {len(pair_durs)} duration pairs"
                      + (f", depth {depth_all + 1} over {deeper}" if ctx.thorough else "")
                      + f"; class family: depth {cls_depth} over {len(cls_durs)} duration pairs (7 classes) + depth {cls_depth + 1} at (0,0) "
                      f"({7 if ctx.thorough else 5} classes)")
